@@ -51,8 +51,8 @@ func (ctl *HTTPGroupController) UnRegister(proxyName, group string, _ vhost.Rout
 	defer ctl.mu.Unlock()
 	g, ok := ctl.groups[indexKey]
 	if !ok {
-		return
 		verifhook.At("group.leave.notfound", "kind", "http", "group", group, "member", proxyName)
+		return
 	}
 
 	isEmpty := g.UnRegister(proxyName)
